@@ -276,6 +276,10 @@ func one(t rk.Failer, slot, class, src string) {
 	if msg != "" {
 		rk.Fail(t, slot, mkReplay(src), "%s", msg)
 	}
+	if accepted && strings.HasSuffix(kinds, "E") {
+		// the two halves of the property meet here: a text the lexer refuses has no tree
+		rk.Fail(t, slot, mkReplay(src), "the lexer refuses the text (its %d. item is an ERROR item) but ParsePipeline returned a tree and no error: what follows the refused place was dropped silently", ntok+1)
+	}
 	nontrivial := !accepted || ntok >= 3
 	lab := class + "/rejected"
 	if accepted {
